@@ -154,6 +154,10 @@ type Snapshot struct {
 type privRef struct {
 	ref  T
 	kind string // obj:<Struct> | arr:<sort> | map:<K>:<V>
+	// heldIn: the private memory cell this reference has been stored into (and into nothing
+	// else): the reference stays private as long as that cell does and no value loaded from
+	// the cell has escaped
+	heldIn string
 }
 
 type LoopCtx struct {
@@ -458,12 +462,72 @@ func (s *State) escape(t T) {
 		return
 	}
 	var keep []privRef
+	gone := map[string]bool{}
 	for _, p := range s.private {
-		if !carriesRef(t.S, p.ref.S) {
+		if !carriesRef(t.S, p.ref.S) && !(p.heldIn != "" && mentionsDeep(t.S, p.heldIn, map[string]bool{})) {
 			keep = append(keep, p)
+		} else {
+			gone[p.ref.S] = true
 		}
 	}
+	// what was held in an escaped cell escapes with it
+	for changed := true; changed && len(gone) > 0; {
+		changed = false
+		var k2 []privRef
+		for _, p := range keep {
+			if p.heldIn != "" && gone[p.heldIn] {
+				gone[p.ref.S] = true
+				changed = true
+				continue
+			}
+			k2 = append(k2, p)
+		}
+		keep = k2
+	}
 	s.private = keep
+}
+
+// holdIn: value t is stored into the private cell `cell`: the private references t carries stay
+// private (held in that cell) unless they are already held elsewhere; returns false if the
+// store must be treated as an escape.
+func (s *State) holdIn(t T, cell string) bool {
+	isPriv := false
+	for _, p := range s.private {
+		if p.ref.S == cell && strings.HasPrefix(p.kind, "deref:") {
+			isPriv = true
+		}
+	}
+	if !isPriv {
+		return false
+	}
+	for i, p := range s.private {
+		if p.ref.S != cell && carriesRef(t.S, p.ref.S) {
+			if p.heldIn != "" && p.heldIn != cell {
+				return false
+			}
+			s.private[i].heldIn = cell
+		}
+	}
+	return true
+}
+
+// mentionsDeep: name occurs as a token in t or in the definition of any named term t mentions.
+func mentionsDeep(t, name string, seen map[string]bool) bool {
+	if mentions(t, name) {
+		return true
+	}
+	for _, tok := range strings.FieldsFunc(t, func(r rune) bool { return r == ' ' || r == '(' || r == ')' }) {
+		if seen[tok] {
+			continue
+		}
+		seen[tok] = true
+		if d, ok := termDefs[tok]; ok && d != tok {
+			if mentionsDeep(d, name, seen) {
+				return true
+			}
+		}
+	}
+	return false
 }
 
 func (c *Cell) elemSort(u *Unit) string {
